@@ -42,6 +42,11 @@ LIB = {
     # operator with a large array-valued constant (dict-form variable definition): w = zeros(1500), w[700] = wmid
     'tab':   {'eqs': ["x' = -a*x + u + mean(w)"], 'state': ['x'], 'const': ['a', 'wmid'], 'in': 'u', 'out': 'x',
               'defaults': {'x': 0.5, 'a': 2.0, 'wmid': 1500.0}, 'array': True},
+    # second-stage ("readout") operator of a MULTI-OPERATOR node: reads the output variable of the node's first operator by
+    # name (PyRates wires same-named output -> input variables of the operators of one node); its equation text depends
+    # on that name (spec op entry carries 'reads': <variable name>); no extrinsic input of its own
+    'rd':    {'eqs': None, 'state': ['q'], 'const': ['kq', 'gq'], 'in': None, 'out': 'q',
+              'defaults': {'q': 0.0, 'kq': 1.0, 'gq': 0.5}, 'reads': True},
     # deliberately malformed operators (F-badop: an API call that legitimately fails in the middle of a history)
     'bad_undecl': {'eqs': ["x' = -a*x + u + zz"], 'state': ['x'], 'const': ['a'], 'in': 'u', 'out': 'x',
                    'defaults': {'x': 0.5, 'a': 2.0}},
@@ -56,6 +61,13 @@ ELIB = {
     'egain': {'eqs': ["m = kk*tanh(s_e)"], 'wired': False},
     'ecoup': {'eqs': ["m = kk*(s_e - s_t)"], 'wired': True},
 }
+
+
+def op_eqs(o):
+    """equations of a spec operator entry"""
+    if o['lib'] == 'rd':
+        return [f"q' = -kq*q + gq*{o['reads']}"]
+    return list(LIB[o['lib']]['eqs'])
 
 
 def edge_value(attrs, ets, y, src):
@@ -84,6 +96,8 @@ def ref_rhs(lib, p, s, u, past=None):
         return {'z': (1j * p['om'] - p['dl']) * s['z'] - p['a'] * past('z', p['tau']) + u}
     if lib == 'lin':
         return {'x': -p['a'] * s['x'] + u}
+    if lib == 'rd':
+        return {'q': -p['kq'] * s['q'] + p['gq'] * u}        # u = value of the variable it reads (same node, first operator)
     if lib == 'cz':
         return {'z': (1j * p['om'] - p['dl']) * s['z'] + u}
     if lib == 'linl':
@@ -105,6 +119,8 @@ def recover_input(lib, p, s, r):
     """invert ref_rhs for the summed input u given the derivative dict r (exact for lin/integ/osc/leak)"""
     if lib == 'lin':
         return r['x'] + p['a'] * s['x']
+    if lib == 'rd':
+        return (r['q'] + p['kq'] * s['q']) / p['gq']
     if lib == 'cz':
         return r['z'] - (1j * p['om'] - p['dl']) * s['z']
     if lib == 'linl':
@@ -162,6 +178,9 @@ class RefNet:
                 L = LIB[op['lib']]
                 self.inst[(node, op['name'])] = {'lib': op['lib'], 'p': {k: cval(vals[k]) for k in L['const']},
                                                  's0': {k: cval(vals[k]) for k in L['state']}}
+                if op['lib'] == 'rd':
+                    first = spec['ops'][nt['ops'][0]]
+                    self.inst[(node, op['name'])]['reads'] = f"{node}/{first['name']}/{op['reads']}"
         self.state_names = [f'{n}/{o}/{v}' for (n, o), i in self.inst.items() for v in LIB[i['lib']]['state']]
 
     def clone_node(self, src, new):
@@ -197,6 +216,9 @@ class RefNet:
         state variable `delay` time units ago.  Without `past` only undelayed edges contribute."""
         out = {}
         for (n, o), i in self.inst.items():
+            if i['lib'] == 'rd':
+                out[f'{n}/{o}/q'] = ref_rhs('rd', i['p'], {'q': y[f'{n}/{o}/q']}, y[i['reads']])['q']
+                continue
             u = self.undelayed_input(y, n, o) + (extra or {}).get((n, o), 0.0)
             if past is not None:
                 tgt = f"{n}/{o}/{LIB[i['lib']]['in']}"
@@ -263,7 +285,7 @@ def _grid(rng, lo, hi, q):
 
 
 def gen_net(rng, n_nodes=None, libs=('lin', 'sat', 'osc', 'leak', 'integ', 'linl'), max_edges=6, uniq='',
-            hier=False, build=None, delays=None, own_nt=True, stable=True, per_node_ops=False):
+            hier=False, build=None, delays=None, own_nt=True, stable=True, per_node_ops=False, readouts=None):
     """flat (or two-level) circuit; every node has its own parameter values and every state variable a distinct
     initial value, so that positions and trajectories are attributable by value.
     delays: None or callable(rng) -> attrs dict fragment for an edge ({'delay':..,'spread':..})."""
@@ -280,6 +302,7 @@ def gen_net(rng, n_nodes=None, libs=('lin', 'sat', 'osc', 'leak', 'integ', 'linl
     rng.shuffle(pool)
     names = node_names(rng, n)
     node_kind = {}
+    readout_of = {}
     nodes = {}
     for i, nm in enumerate(names):
         k = rng.choice(kinds)
@@ -305,6 +328,20 @@ def gen_net(rng, n_nodes=None, libs=('lin', 'sat', 'osc', 'leak', 'integ', 'linl
         else:
             spec['nts'][f'nt{i}{uniq}'] = {'name': f'nt{i}{uniq}', 'ops': [k + uniq], 'var': {k + uniq: var}}
         nodes[nm] = f'nt{i}{uniq}'
+        if readouts and not LIB[k].get('complex') and not LIB[k].get('dde') and rng.random() < readouts[0]:
+            # MULTI-OPERATOR node: a readout operator behind the first one (with its own values, or - second number of
+            # `readouts` - without any override: an empty per-operator entry next to a non-empty one)
+            rk = f'rd{i}{uniq}' if per_node_ops else f'rd_{k}{uniq}'
+            rvar = {'kq': _grid(rng, 0.25, 3.0, 16), 'gq': _grid(rng, -2.0, 2.0, 16) or 0.5, 'q': pool.pop() / 64}
+            nt_ = spec['nts'][f'nt{i}{uniq}']
+            if per_node_ops:
+                spec['ops'][rk] = {'lib': 'rd', 'name': rk, 'reads': LIB[k]['out'], 'defaults': {**LIB['rd']['defaults'], **rvar}}
+            else:
+                spec['ops'].setdefault(rk, {'lib': 'rd', 'name': rk, 'reads': LIB[k]['out'], 'defaults': dict(LIB['rd']['defaults'])})
+                if rng.random() >= readouts[1]:
+                    nt_['var'][rk] = rvar
+            nt_['ops'].append(rk)
+            readout_of[nm] = rk
     def mk_edges(level_names, prefix_of, m):
         out, seen = [], set()
         for _ in range(m):
@@ -319,7 +356,10 @@ def gen_net(rng, n_nodes=None, libs=('lin', 'sat', 'osc', 'leak', 'integ', 'linl
                 a.update(delays(rng))
             (sk, sname) = sk if isinstance(sk, tuple) else (sk, sk + uniq)
             (tk, tname) = tk if isinstance(tk, tuple) else (tk, tk + uniq)
-            out.append([f'{s}/{sname}/{LIB[sk]["out"]}', f'{t}/{tname}/{LIB[tk]["in"]}', a])
+            src = f'{s}/{sname}/{LIB[sk]["out"]}'
+            if s.split('/')[-1] in readout_of and rng.random() < 0.5:
+                src = f"{s}/{readout_of[s.split('/')[-1]]}/q"          # the readout operator's variable as edge source
+            out.append([src, f'{t}/{tname}/{LIB[tk]["in"]}', a])
         return out
     if per_node_ops:
         used = {o for nt in spec['nts'].values() for o in nt['ops']}
@@ -356,7 +396,7 @@ def _as_definition(decl):
     return {'vtype': vtype, 'value': val, 'dtype': 'float', 'shape': (1,)}
 
 
-def _vardecl(lib, defaults):
+def _vardecl(lib, defaults, op=None):
     L = LIB[lib]
     out = {}
     for s in L['state']:
@@ -374,7 +414,10 @@ def _vardecl(lib, defaults):
         out[c] = float(defaults[c])
     if L.get('complex'):
         out['ic'] = 0.0 + 1.0j
-    out[L['in']] = 'input(0.0)'
+    if lib == 'rd':
+        out[op['reads']] = 'input(0.0)'
+    else:
+        out[L['in']] = 'input(0.0)'
     return out
 
 
@@ -386,10 +429,10 @@ def build_python(spec, pool=None):
     ops = {}
     for k, o in spec['ops'].items():
         if ('op', k) not in pool:
-            decl = _vardecl(o['lib'], {**LIB[o['lib']]['defaults'], **o.get('defaults', {})})
+            decl = _vardecl(o['lib'], {**LIB[o['lib']]['defaults'], **o.get('defaults', {})}, o)
             if o.get('decl') == 'dict':
                 decl = {v: _as_definition(d) for v, d in decl.items()}
-            pool[('op', k)] = OperatorTemplate(name=o['name'], equations=list(LIB[o['lib']]['eqs']), variables=decl)
+            pool[('op', k)] = OperatorTemplate(name=o['name'], equations=op_eqs(o), variables=decl)
         ops[k] = pool[('op', k)]
     nts = {}
     for k, nt in spec['nts'].items():
@@ -439,9 +482,9 @@ def yaml_text(spec):
     lines = ['%YAML 1.2', '---', '']
     for k, o in spec['ops'].items():
         lines += [f"{o['name']}:", '  base: OperatorTemplate', '  equations:']
-        lines += [f'    - "{e}"' for e in LIB[o['lib']]['eqs']]
+        lines += [f'    - "{e}"' for e in op_eqs(o)]
         lines += ['  variables:']
-        for v, d in _vardecl(o['lib'], {**LIB[o['lib']]['defaults'], **o.get('defaults', {})}).items():
+        for v, d in _vardecl(o['lib'], {**LIB[o['lib']]['defaults'], **o.get('defaults', {})}, o).items():
             lines.append(f'    {v}: {d!r}' if not isinstance(d, str) else f'    {v}: {d}')
         lines.append('')
     for k, nt in spec['nts'].items():
